@@ -47,12 +47,24 @@ def adopt_new_units(world, model, obs, prop):
         if not unknown:
             continue
         cands = [u for (s, u) in model.new_units if s == sname and not getattr(u, "adopted", False)]
+        import gtirb as _g
+
+        names_in = {}
+        for sym in world.module.symbols:
+            r = sym.referent
+            if isinstance(r, _g.ByteBlock) and r.byte_interval is not None:
+                names_in.setdefault(str(r.byte_interval.uuid), set()).add(sym.name)
         for o in unknown:
             hit = None
+            best = -1
             for u in cands:
                 if u.bytes() == o.data and not getattr(u, "adopted", False):
-                    hit = u
-                    break
+                    # identical bytes (e.g. two inserted functions that only
+                    # differ in a symbolic operand): tell them apart by the
+                    # labels they carry
+                    score = len({t.name for t in u.toks if t.kind == "label"} & names_in.get(o.uuid, set()))
+                    if score > best:
+                        hit, best = u, score
             if hit is None:
                 raise core.Violation(
                     "C01",
